@@ -731,7 +731,24 @@ def ix8(model):
             if any(guards.has_fact(n, lambda e, t, v=v: t and isinstance(e, ast.Call)
                                    and T.call_name(e) == 'isdecimal' and unparse(e.func.value) == v.id)
                    for v in srcs):
-                r.ok(n, 'guarded by isdecimal()', nontrivial=True)
+                # since Python 3.11 int() of more than 4300 digits raises ValueError: the length must be bounded
+                def short(e, t, names={v.id for v in srcs}):
+                    if not (isinstance(e, ast.Compare) and len(e.ops) == 1 and isinstance(e.left, ast.Call)
+                            and getattr(e.left.func, 'id', '') == 'len' and e.left.args
+                            and isinstance(e.left.args[0], ast.Name) and e.left.args[0].id in names
+                            and isinstance(e.comparators[0], ast.Constant) and isinstance(e.comparators[0].value, int)):
+                        return False
+                    k, op = e.comparators[0].value, e.ops[0]
+                    if t:
+                        return (isinstance(op, ast.Lt) and k <= 4301) or (isinstance(op, ast.LtE) and k <= 4300) \
+                            or (isinstance(op, ast.Eq) and k <= 4300)
+                    return (isinstance(op, ast.Gt) and k <= 4300) or (isinstance(op, ast.GtE) and k <= 4301)
+                if guards.has_fact(n, short):
+                    r.ok(n, 'guarded by isdecimal() and a bound on the number of digits', nontrivial=True)
+                else:
+                    r.fail(n, '%s() is guarded by isdecimal() only: a number of more than 4300 digits in the '
+                           'document raises ValueError (integer string conversion limit of Python >= 3.11)'
+                           % n.func.id, witness='\\newcommand{\\x}[' + '1 repeated 5000 times' + ']{a}')
                 continue
             if isinstance(a, ast.Subscript) and guards.has_fact(
                     n, lambda e, t: t and isinstance(e, ast.Call) and T.call_name(e) == 'isdecimal'):
